@@ -10,6 +10,7 @@ Search: every answer of the implementation is judged by the extracted *spec* (en
 ReadSpec.prefix_len / prefix_bytes / fail_status / cstring_at over the same page source)."""
 import os
 import random
+import re
 
 from .. import core
 from .. import hangaware
@@ -73,13 +74,38 @@ def gen_layout(rng, kind, top=False):
     return lay
 
 
+def gen_xc_layout(rng):
+    """Xen xc_core dump: the PFN table is a mixture of ascending runs, descending runs and single pages
+    in random table order, with holes next to every run (the PFN just above and just below a run is
+    absent), so that reads cross run -> hole boundaries in both directions"""
+    runs = []
+    p = rng.choice([1, 2, 3])
+    while p < 36 and len(runs) < 7:
+        ln = rng.choice([1, 2, 2, 3, 4])
+        pf = list(range(p, p + ln))
+        if rng.random() < 0.5:
+            pf.reverse()                                   # descending run
+        runs.append(pf)
+        p += ln + rng.choice([1, 1, 2, 3])
+    rng.shuffle(runs)
+    order = [q for r in runs for q in r]
+    pages = {}
+    for q in order:
+        nuls = [] if rng.random() < 0.6 else sorted(rng.sample(range(PS), rng.randint(1, 3)))
+        pages[q] = [rng.randrange(1 << 30), nuls]
+    return {"kind": "xc", "npfn": max(order) + 2, "order": order, "xlat": False,
+            "pages": {str(k): v for k, v in pages.items()}}
+
+
 def layout_pages(lay):
     return {int(k): rf.page_bytes(random.Random(v[0]), PS, v[1]) for k, v in lay["pages"].items()}
 
 
 def build_file(lay, path):
     pages = layout_pages(lay)
-    if lay["kind"] == "elf":
+    if lay["kind"] == "xc":
+        rf.make_xc_core(path, lay["order"], pages)
+    elif lay["kind"] == "elf":
         rf.make_elf(path, pages, lay.get("kvbase", VOFF))
     else:
         data = path + ".data"
@@ -100,6 +126,8 @@ def build_file(lay, path):
 
 def spaces(lay):
     """(address space, base address of pfn 0) the file is read through"""
+    if lay["kind"] == "xc":
+        return [(AS_MACHPHYS, 0), (AS_KPHYS, 0), (AS_KV, 0)]
     if "kvbase" in lay:
         return [(AS_MACHPHYS, 0), (AS_KPHYS, 0), (AS_KV, lay["kvbase"])]
     if lay["kind"] == "elf" or lay.get("xlat"):
@@ -325,19 +353,24 @@ def check_probe(run, lay, pages, probe_out):
                 run.count("probe-kv-page-0-%s" % st)
                 continue
             base = lay["kvbase"]
-        if (a == AS_KV and lay["kind"] != "elf" and not lay.get("xlat")) or (a == AS_KPHYS and not lay.get("xlat")):
+        if (a == AS_KV and lay["kind"] != "elf" and not lay.get("xlat")) or \
+                (a == AS_KPHYS and not lay.get("xlat") and lay["kind"] != "xc"):
             run.count("probe-untranslatable" if st != "0" else "probe-translated-unexpectedly")
             continue
         pfn = (addr - base) // PS
         if pfn in pages:
             if st != "0":
-                run.count("foreign-present-page-unreadable-as%d-%s" % (a, lay["kind"]))
+                return ("page %x of address space %d is in the file but a whole-page read fails with status %s"
+                        % (pfn, a, st))
             elif bytes.fromhex(hx) != pages[pfn]:
                 return "page %x of address space %d reads back different bytes than were written" % (pfn, a)
             else:
                 run.count("probe-present")
         else:
-            run.count("probe-missing-%s" % st if st != "0" else "foreign-missing-page-readable-as%d-%s" % (a, lay["kind"]))
+            if st == "0":
+                return ("page %x of address space %d is not in the file, but a whole-page read succeeds "
+                        "(a read running into this hole would report more than the readable prefix)" % (pfn, a))
+            run.count("probe-missing-%s" % st)
     return None
 
 
@@ -367,6 +400,7 @@ def check(run):
         nfiles = 16 if quick else 240
         lays = [gen_layout(run.rng, "elf" if i % 2 == 0 else "diskdump", top=(i % 4 == 2))
                 for i in range(nfiles)]
+        lays += [gen_xc_layout(run.rng) for _ in range(4 if quick else 60)]
     paths = []
     pagesets = {}
     for i, lay in enumerate(lays):
@@ -386,8 +420,21 @@ def check(run):
         write_sidecar(p, o)
         msg = check_probe(run, layouts[p], pagesets[p], o)
         if msg:
+            items = []
+            m = re.match(r"page ([0-9a-f]+) of address space (\d) is not in the file", msg)
+            if m and int(m.group(1), 16) - 1 in pagesets[p]:
+                # the read the property talks about: from the present page below into this hole
+                pfn, a = int(m.group(1), 16), int(m.group(2))
+                base = dict(spaces(layouts[p])).get(a, 0)
+                items = ["%x:%x:10" % (a, base + pfn * PS - 8)]
+                out, _ = hangaware.run_lines(exe, run.work, ["%s %s %s" % (drv_mode(layouts[p], "R"), p, items[0])],
+                                             timeout=40)
+                f = out[0].split(",")
+                if len(f) >= 2:
+                    msg += "; kdump_read(%s) of 16 bytes across that boundary returns status %s, *plength = %s " \
+                           "(the readable prefix has 8 bytes)" % (items[0].rsplit(":", 1)[0], f[0], f[1])
             run.violation("spec", "whole-page read of a generated %s file: %s" % (layouts[p]["kind"], msg),
-                          {"engine": "read", "layout": layouts[p], "mode": "P", "items": []},
+                          {"engine": "read", "layout": layouts[p], "mode": "P", "items": items},
                           found_input=True, signature="read content " + msg[:40])
     if run.violations:
         return          # the page source itself is broken; nothing to run the model over
